@@ -128,10 +128,14 @@ def make_read(rng, k, ads, C, side=1):
             opt = ad["opt"]
             where = rng.random()
             if opt == "a" or (opt == "b" and where < 0.5):
-                seq = body + rng.choice((occ, occ[: rng.randint(2, len(occ))], occ + "".join(rng.choice("ACGT") for _ in range(rng.randint(1, 5)))))
+                seq = body + rng.choice((occ, occ[: rng.randint(min(2, len(occ)), max(1, len(occ)))], occ + "".join(rng.choice("ACGT") for _ in range(rng.randint(1, 5)))))
             else:
                 seq = rng.choice((occ, occ[rng.randint(0, max(0, len(occ) - 3)):], "".join(rng.choice("ACGT") for _ in range(rng.randint(1, 4))) + occ)) + body
-            if rng.random() < 0.25 and len(ads) > 1:          # a second adapter: several rounds / best-of
+            if C.get("_repeat") and rng.random() < 0.7:       # the same adapter twice: removed in two rounds
+                o2 = mutate(rng, parts[0], rng.choice((0, 0, 1)))
+                mid = "".join(rng.choice("ACGT") for _ in range(rng.randint(0, 4)))
+                seq = (seq + mid + o2) if opt != "g" else (o2 + mid + seq)
+            elif rng.random() < 0.25 and len(ads) > 1:          # a second adapter: several rounds / best-of
                 other = pick(rng, ads)
                 o2 = mutate(rng, adapter_seqs(other)[-1], rng.choice((0, 1)))
                 seq = (seq + o2) if other.get("opt", "a") != "g" else (o2 + seq)
@@ -204,7 +208,10 @@ SCENARIOS = {
             dict(maxaer="0.05"), dict(polya=True), dict(paired=True, polya=True, q="10")],
     "C10": [dict(paired=True, len1=8, len2=0), dict(paired=True, len1=10), dict(nextseq=20, q="20"), dict(nextseq=20, q="10", paired=True, Q="20"),
             dict(cut1=[30], lengthtag="length="), dict(polya=True, len1=10, trimn=True), dict(cut1=[3, -2], q="10,10")],
-    "C20": [dict(linked=True, revcomp=True), dict(revcomp=True, times=2, same_family=True), dict(times=3, n_ads=3), dict(paired=True, pairads=True),
+    "C20": [dict(linked=True, revcomp=True, cores=2, buffer_size=300, n_reads=16), dict(linked=True, revcomp=True, cores=3, buffer_size=250, n_reads=18),
+            dict(revcomp=True, times=3, n_ads=1, repeat=True), dict(revcomp=True, times=2, n_ads=2, repeat=True), dict(times=3, n_ads=1, repeat=True),
+            dict(error_rate=0.12), dict(error_rate=0.15, n_ads=2), dict(error_rate=0.3), dict(error_rate=0.34, times=2),
+            dict(linked=True, revcomp=True), dict(revcomp=True, times=2, same_family=True), dict(times=3, n_ads=3), dict(paired=True, pairads=True),
             dict(n_ads=2, error_rate=0.1), dict(paired=True, revcomp=True)],
 }
 
@@ -313,6 +320,8 @@ def _random_config(rng, focus, S):
             C["index"] = True
         if S.get("tie_order"):
             C["_tie"] = True
+        if S.get("repeat"):
+            C["_repeat"] = True
     # post-adapter modifications
     if p(0.4 if heavy else 0.1):
         C["polya"] = True
@@ -422,10 +431,14 @@ def _random_config(rng, focus, S):
 def make_inputs(rng, C, n):
     r1, r2 = [], []
     for k in range(n):
-        a = make_read(rng, k, C.get("ads1", []), C, 1)
+        ads1, ads2 = C.get("ads1", []), C.get("ads2", [])
+        if C.get("pairads") and ads1 and len(ads1) == len(ads2) and rng.random() < 0.7:
+            j = rng.randrange(len(ads1))            # both mates carry the adapters of the same rank
+            ads1, ads2 = [ads1[j]], [ads2[j]]
+        a = make_read(rng, k, ads1, C, 1)
         r1.append(a)
         if C["paired"]:
-            b = make_read(rng, k, C.get("ads2", []), C, 2)
+            b = make_read(rng, k, ads2, C, 2)
             # mates share id and comment layout
             nm = a[0].replace(" 1:", " 2:")
             r2.append((nm, b[1], b[2]))
@@ -441,15 +454,16 @@ def vet_thresholds(C, r1, r2):
     return True
 
 
-def drive(ctx, focus, n_runs, want, reads_per_run=(5, 9), config_hook=None):
+def drive(ctx, focus, n_runs, want, reads_per_run=(5, 9), config_hook=None, extra_configs=()):
     """Generate, run and validate n_runs runs.  Returns list of (event, clause, k)."""
     rng = ctx.rng
     events, samplers, failed = [], {}, []
     tries = 0
-    while len(events) < n_runs and tries < n_runs * 4:
+    extra = list(extra_configs)
+    while (len(events) < n_runs or extra) and tries < n_runs * 4 + len(extra_configs):
         tries += 1
         scen = pick(rng, SCENARIOS[focus]) if focus in SCENARIOS and rng.random() < 0.6 else None
-        C = random_config(rng, focus, scen)
+        C = extra.pop() if extra else random_config(rng, focus, scen)
         if focus in ("C04", "C16", "C20", "C15") and rng.random() < 0.3:
             C["cores"] = rng.choice((2, 3))
             C["buffer_size"] = rng.choice((300, 500, 900))
